@@ -31,6 +31,8 @@ def run(ctx):
     ctx.each(c11.r11e, ctx, repo, "R13f")
     ctx.each(c16.r16a, ctx, repo, T)
     ctx.each(r13h, ctx, repo)
+    ctx.each(c11.r11d, ctx, repo)  # the coverage that sets the parameter is per time step: overwrites are converted before they are capped
+    ctx.each(c11.r11a, ctx, repo)
     ctx.each(flowalg.process_prologue, ctx, repo, "R13i")
     ctx.each(flowalg.accumulator_rule, ctx, repo, "R13g", [("model", "Model.update_pars"), ("model", "Parameter.source_popsize"), ("results", "Result.get_coverage")], 6, "the eligible-people counts")  # the outcome a program set implies is computed from a cache: it must follow every edit of the visible outcomes
 
